@@ -18,17 +18,17 @@ Match(s, r) ==
          [] s.t = "obj" -> Len(s.o) = Len(r.o) /\ \A i \in 1..Len(s.o) : s.o[i][1] = r.o[i][1] /\ Match(s.o[i][2], r.o[i][2])
          [] OTHER -> s = r
 
-MatchErr(se, re) ==     \* re: the recorded error record or the string "none"
-  CASE se.k = "none" -> re = "none"
-    [] se.k = "err" -> re # "none" /\ re.k = "err" /\ (IF re.v.t = "opaque" THEN se.v.t = "opaque" ELSE Match(se.v, re.v))
-    [] se.k = "halt" -> re # "none" /\ re.k = "halt" /\ Match(se.v, re.v) /\ se.c = re.c
+MatchErr(se, re) ==     \* re: the recorded error record, or [k |-> "none"]
+  CASE se.k = "none" -> re.k = "none"
+    [] se.k = "err" -> re.k = "err" /\ (IF re.v.t = "opaque" THEN se.v.t = "opaque" ELSE Match(se.v, re.v))
+    [] se.k = "halt" -> re.k = "halt" /\ Match(se.v, re.v) /\ se.c = re.c
     [] OTHER -> FALSE
 
 RunVerdict(ast, run) ==
   IF "panic" \in DOMAIN run /\ run.panic # "" THEN [v |-> "panic"]
   ELSE IF "long" \in DOMAIN run /\ run.long THEN [v |-> "long"]
   ELSE LET r == Eval(ast, run.in, <<>>, <<>>)
-           re == IF "err" \in DOMAIN run THEN run.err ELSE "none"
+           re == IF "err" \in DOMAIN run THEN run.err ELSE [k |-> "none"]
        IN IF r.e.k = "oom" THEN [v |-> "oom"]
           ELSE IF Len(r.o) = Len(run.out) /\ (\A i \in 1..Len(r.o) : Match(r.o[i], run.out[i])) /\ MatchErr(r.e, re)
                THEN [v |-> "agree", n |-> Len(r.o), e |-> r.e.k]
@@ -38,8 +38,8 @@ RecVerdict(rec) ==
   IF "runs" \notin DOMAIN rec THEN [id |-> rec.id, runs |-> <<>>]
   ELSE [id |-> rec.id, runs |-> [j \in 1..Len(rec.runs) |-> RunVerdict(rec.ast, rec.runs[j])]]
 
+\* The verdicts are computed and written while TLC computes the (single) initial state.
 VARIABLE done
-Init == done = FALSE
-Next == done = FALSE /\ done' = TRUE
-Post == done \in BOOLEAN /\ ndJsonSerialize(IOEnv.VERIF_OUT, [i \in 1..Len(Trace) |-> RecVerdict(Trace[i])])
+Init == done = ndJsonSerialize(IOEnv.VERIF_OUT, [i \in 1..Len(Trace) |-> RecVerdict(Trace[i])])
+Next == UNCHANGED done
 =============================================================================
